@@ -6,7 +6,8 @@ import sys
 
 import numpy as np
 
-TESTFILE = "/repo/tests/data/parkes_4bit.sf"
+import os
+TESTFILE = os.path.join(os.environ.get("SYMX_REPO", "/repo"), "tests/data/parkes_4bit.sf")
 
 
 def main(p):
